@@ -133,7 +133,7 @@ func c17Accepts(ae string) bool {
 
 func TestVerifC17Inputs(t *testing.T) {
 	L := ev.Begin("C17", "c17-inputs", "exploration",
-		"inner handler matrix body {empty, 1B, 512B text, 100kB text, already-gzipped} x every chunking class into <=3 writes x explicit/implicit WriteHeader x status {200,201,404,500 (+204,304 bodiless)} x Content-Type {matching, matching+charset, non-matching, absent(sniffed)} x Content-Encoding {none,gzip,br,zstd,aes128gcm} x Content-Length {absent,correct} x request Accept-Encoding {none,gzip,'gzip, deflate',br,identity,'gzip;q=0' and upper-case spellings of it} x an interim 103 before the final status x a second WriteHeader with changed content headers after the first chunk; plus 6 operator expressions (strict about parameters / letter case, or matching the empty string) x 8 Content-Type spellings x {plain, headers flushed before the first write, an interim 103 first} x Accept {*/*, text/event-stream}, served through a real http.Server; oracle: compressed only if the three conditions hold, then labelled, no stale Content-Length, gunzip == inner bytes; otherwise body and headers byte-identical; status always preserved. non-trivial = response with a body")
+		"inner handler matrix body {empty, 1B, 512B text, 100kB text, already-gzipped} x every chunking class into <=3 writes x explicit/implicit WriteHeader x status {200,201,404,500 (+204,304 bodiless)} x Content-Type {matching, matching+charset, non-matching, absent(sniffed)} x Content-Encoding {none,gzip,br,zstd,aes128gcm} x Content-Length {absent,correct} x request Accept-Encoding {none,gzip,'gzip, deflate',br,identity,'gzip;q=0' and upper-case spellings of it} x an interim 103 before the final status x a second WriteHeader with changed content headers after the first chunk; plus 6 operator expressions (strict about parameters / letter case, or matching the empty string) x 8 Content-Type spellings x {plain, headers flushed before the first write, an interim 103 first} x Accept {*/*, text/event-stream}, served through a real http.Server; plus HEAD requests (matching / non-matching type x Accept-Encoding x upstream Content-Length 0 / 1000) beside the same GET: same Content-Encoding, and a Content-Length only if it is the number of bytes the GET delivers; oracle: compressed only if the three conditions hold, then labelled, no stale Content-Length, gunzip == inner bytes; otherwise body and headers byte-identical; status always preserved. non-trivial = response with a body")
 	bodies := [][]byte{nil, []byte("x"), c17Text(512), c17Text(100 * 1024), c17Gz(c17Text(2000))}
 	ctypes := []string{"text/plain", "text/html; charset=utf-8", "application/json", "image/png", ""}
 	cencs := []string{"", "gzip", "br", "zstd", "aes128gcm"}
@@ -387,6 +387,54 @@ func TestVerifC17Inputs(t *testing.T) {
 					L.Violation("body-changed-or-compressed-without-label", d)
 				case labelled && !re.MatchString(ct):
 					L.Violation("compressed-although-content-type-is-outside-the-configured-expression", d)
+				}
+			}
+		}
+	}
+	// HEAD: the headers describe what a GET would deliver. The inner handler answers as a reverse
+	// proxy relays an upstream's HEAD answer: content headers, no body.
+	for _, ct := range []string{"text/plain", "image/png"} {
+		for _, ae := range []string{"", "gzip"} {
+			for _, size := range []int{0, 1000} {
+				body := c17Text(size)
+				inner := http.HandlerFunc(func(w http.ResponseWriter, r *http.Request) {
+					w.Header().Set("Content-Type", ct)
+					w.Header().Set("Content-Length", fmt.Sprint(len(body)))
+					w.WriteHeader(200)
+					if r.Method != "HEAD" {
+						w.Write(body)
+					}
+				})
+				srv := httptest.NewServer(NewGzipHandler(inner, c17Re))
+				do := func(method string) (*http.Response, []byte) {
+					req, _ := http.NewRequest(method, srv.URL, nil)
+					if ae != "" {
+						req.Header.Set("Accept-Encoding", ae)
+					}
+					resp, err := (&http.Client{Transport: &http.Transport{DisableCompression: true}}).Do(req)
+					if err != nil {
+						panic("VERIF-INFRA: " + err.Error())
+					}
+					raw, _ := io.ReadAll(resp.Body)
+					resp.Body.Close()
+					return resp, raw
+				}
+				get, getBody := do("GET")
+				head, _ := do("HEAD")
+				srv.Close()
+				L.Case()
+				L.NontrivialKey(fmt.Sprint("head", ct, ae, size))
+				d := map[string]interface{}{"request": "HEAD", "accept_encoding": ae, "content_type": ct, "upstream_content_length": len(body),
+					"head_content_encoding": head.Header.Get("Content-Encoding"), "head_content_length": head.Header.Get("Content-Length"),
+					"get_content_encoding": get.Header.Get("Content-Encoding"), "get_body_bytes_on_the_wire": len(getBody)}
+				if head.StatusCode != 200 {
+					L.Violation("status-changed/head", d)
+				}
+				if head.Header.Get("Content-Encoding") != get.Header.Get("Content-Encoding") {
+					L.Violation("head-and-get-disagree-on-content-encoding", d)
+				}
+				if cl := head.Header.Get("Content-Length"); cl != "" && cl != fmt.Sprint(len(getBody)) {
+					L.Violation("stale-content-length/head", d)
 				}
 			}
 		}
